@@ -552,7 +552,6 @@ func c19ValidatorDiscipline(c *Ctx) {
 	}
 }
 
-
 // c19UntrustedLength: a length decoded from received bytes (binary.Uvarint / binary.ReadUvarint) must be compared with
 // something before it takes part in unsigned arithmetic: `prefix + len` wraps around for lengths close to 2^64, the bound
 // check that follows passes and the slice expression panics (defect F20). Accepted: any comparison of the decoded value
